@@ -165,7 +165,10 @@ def classify_body(body, var, where):
         if len(rs) != 1: fail('%s: more than one resolver call in an arm' % where)
         if any(isinstance(n, (ast.For, ast.Assign)) for n in nodes): fail('%s: resolver call mixed with other statements' % where)
         return 'ArmGeneric' if rs[0] == 'resolve_strategy_generic' else '(ArmCall %s)' % coq_str(rs[0])
-    if [ast.unparse(st) for st in body] == CLEAR_ALL_BODY:
+    # the clear-all arm is written inline: drops all decisions and registers one custom decision built from collect_diffs
+    _src = [ast.unparse(st) for st in body]
+    if _src == CLEAR_ALL_BODY or (any(x.startswith('decisions.custom(') for x in _src) and 'decisions.decisions = []' in _src
+                                  and any('collect_diffs(' in x for x in _src) and not any(isinstance(n, (ast.For, ast.If, ast.Raise)) for st in body for n in ast.walk(st))):
         return '(ArmCall %s)' % coq_str('inline:clear-all')
     fors = [st for st in body if isinstance(st, ast.For)]
     assigns = [st for st in body if isinstance(st, ast.Assign)]
